@@ -88,10 +88,11 @@ package block
 //@   modifies *
 //@   opt no-callee-pre
 //@   opt inline-none
-//@   opt protect all(V2HeaderFormat.PatchTransactionsHash), all(V2HeaderFormat.NormalTransactionsHash), all(V2HeaderFormat.VotesHash), all(V2HeaderFormat.Result), all(V2BodyFormat.BTPDigest)
+//@   opt protect all(V2HeaderFormat.PatchTransactionsHash), all(V2HeaderFormat.NormalTransactionsHash), all(V2HeaderFormat.VotesHash), all(V2HeaderFormat.Result), all(V2HeaderFormat.NSFilter), all(V2BodyFormat.BTPDigest)
 //@   opt writers Unmarshal
-//@   opt protect-local headerFormat.PatchTransactionsHash[*], headerFormat.NormalTransactionsHash[*], headerFormat.VotesHash[*], headerFormat.Result[*], bodyFormat.BTPDigest[*]
+//@   opt protect-local headerFormat.PatchTransactionsHash[*], headerFormat.NormalTransactionsHash[*], headerFormat.VotesHash[*], headerFormat.Result[*], headerFormat.NSFilter[*], bodyFormat.BTPDigest[*]
 //@   requires b != nil
 //@   callpre newProposer: tl_hash(patches) == seq(headerFormat.PatchTransactionsHash) && tl_hash(normalTxs) == seq(headerFormat.NormalTransactionsHash)
 //@   callpre newProposer: cvs_hash(votes) == seq(headerFormat.VotesHash)
 //@   callpre newProposer: digest_hash(bd) == result_btp(seq(headerFormat.Result)) && digest_src(bd) == seq(bodyFormat.BTPDigest) && digest_hash(bd) == sha3(seq(bodyFormat.BTPDigest))
+//@   callpre newProposer: ghost(nsf_of) == bd && seq(headerFormat.NSFilter) == seq(ghost(nsf_bytes))
